@@ -93,7 +93,7 @@ Section Generate.
      None for a self-signed entity *)
   Definition gen_tcert (c : cert_cfg) (o : observed) (issuer : option (list rdn * bytes)) : option tcert :=
     let m := cc_manip c in
-    if (cc_serial c <? 0)%Z then None else      (* a negative configured serial is a configuration error *)
+    if (cc_serial c <? 0)%Z || (9223372036854775807 <? cc_serial c)%Z then None else      (* a negative configured serial, or one the configuration's int64 cannot hold, is a configuration error *)
     match parse_rdn (cc_subject c), to_time_struct (negb (fx_date mfx)) (cc_validity c) (ob_now_local o),
           sig_oid (effective_sigalg c) with
     | Some subj, Some val, Some (so, rsa) =>
